@@ -19,7 +19,12 @@ import numpy as np
 
 
 class TargetFault(Exception):
-    """raised by the instrumented target when a fault is injected"""
+    """raised by the instrumented target when a fault is injected.  The constructor takes TWO arguments on purpose:
+    code that re-builds the exception (type(err)(message)) instead of re-raising it no longer preserves the type."""
+
+    def __init__(self, code, detail):
+        super().__init__(code, detail)
+        self.code, self.detail = code, detail
 
 
 def _l(a):
@@ -115,6 +120,10 @@ def make_problem(spec):
         cons = lambda X: np.atleast_2d(X)[:, 0] - 1.0 - (0.0 if D == 1 else 0.5 * np.atleast_2d(X)[:, -1])  # noqa: E731
     elif cname == "band":
         cons = lambda X: np.abs(np.atleast_2d(X)[:, 0] - (0.2 if box != "log" else 1.2)) - 0.6  # noqa: E731
+    elif cname == "tinyball":  # violations reported as TINY positive numbers (value > 0 is a violation, however small)
+        cons = lambda X: (np.sum(np.atleast_2d(X) ** 2, axis=1) - 2.0 * D) * 1e-9  # noqa: E731
+    elif cname == "tinyhalf":
+        cons = lambda X: (np.atleast_2d(X)[:, 0] - 1.0) * 1e-10  # noqa: E731
     elif cname == "lattice":   # feasible only on a coarse lattice: ES populations collapse to few or zero survivors
         cons = lambda X: np.any(np.abs(np.atleast_2d(X) / 0.25 - np.round(np.atleast_2d(X) / 0.25)) > 1e-9, axis=1).astype(float)  # noqa: E731
     xk = spec.get("x0", "given")
@@ -171,14 +180,16 @@ class Recorder:
                 kind = f["kind"]
                 entry["out"] = ["fault", kind]
                 if kind == "raise":
-                    raise TargetFault("injected at call %d" % k)
+                    rec.raised = TargetFault(k, "injected at call %d" % k)
+                    raise rec.raised
                 if kind == "raise_key":
                     raise KeyError("injected")
                 he = rec.spec.get("noise") == "specified"
-                v = dict(nan=float("nan"), inf=float("inf"), ninf=float("-inf"), complex=complex(1, 2),
-                         vector=np.array([1.0, 2.0]), none=None).get(kind, 1.0)
-                if kind in ("sd_zero", "sd_neg", "sd_nan", "sd_inf", "sd_none"):
-                    s = dict(sd_zero=0.0, sd_neg=-1.0, sd_nan=float("nan"), sd_inf=float("inf"), sd_none=None)[kind]
+                v = dict(nan=float("nan"), inf=float("inf"), ninf=float("-inf"), complex=complex(1, 2), complex0=complex(3, 0),
+                         npcomplex=np.complex128(1 + 2j), npcomplex0=np.complex128(3 + 0j), npnan=np.float64("nan"),
+                         vector=np.array([1.0, 2.0]), vlist=[1.0, 2.0], none=None).get(kind, 1.0)
+                if kind in ("sd_zero", "sd_neg", "sd_nan", "sd_inf", "sd_none", "sd_complex0"):
+                    s = dict(sd_zero=0.0, sd_neg=-1.0, sd_nan=float("nan"), sd_inf=float("inf"), sd_none=None, sd_complex0=complex(0.5, 0))[kind]
                     return (1.0, s) if he else float("nan")
                 if kind == "notpair":
                     return 1.0 if he else (1.0, 1.0)
@@ -365,6 +376,7 @@ class Recorder:
             inner = [f for f in tb if "/pybads/" in f.filename]
             where = (os.path.basename(inner[-1].filename) + ":" + inner[-1].name) if inner else "?"
             tr["exc"] = [type(ex).__name__, str(ex)[:300], where]
+            tr["exc_same_object"] = (ex is getattr(self, "raised", None))
         finally:
             for (mod, name), v in saved.items():
                 setattr(mod, name, v)
